@@ -80,11 +80,16 @@ pub struct Case {
     pub cycles: usize,
     /// compare values with the reference (clean stratum) or only outcome class + tags
     pub reference: bool,
+    /// hand-written program text (no AST: outcome class only)
+    pub raw: Option<String>,
 }
 
 impl Case {
     pub fn text(&self) -> String {
-        print(&self.prog)
+        match &self.raw {
+            Some(t) => t.clone(),
+            None => print(&self.prog),
+        }
     }
 }
 
